@@ -10,6 +10,7 @@ import Stef.Proofs.BitStream
 import Stef.Proofs.Varint
 import Stef.Proofs.Codec
 import Stef.Proofs.Uvc
+import Stef.Proofs.BitRoundtrip
 
 namespace Stef.Props.C20
 open Stef Stef.Spec Stef.Codec
@@ -145,15 +146,46 @@ theorem overread_reported_spec (n : Nat) (bs : Bits) (h : bs.length < n) : readB
     | nil => simp [readBitsAux]
     | cons b l => simp only [readBitsAux]; exact ih l _ (by simpa using hl)
 
-/-- the Go bit reader (after fix f47ea21: `Error()` reports consumed padding bits): a reader over
-    the single byte 0xFF returns an error as soon as a bit past the end has been consumed. This is
-    a TEST on one input (labelled as such); the general statement for `BitsReader` needs the
-    register refinement of the reader, which is tied by op-for-op correspondence only. -/
-theorem overread_reported_bitsreader_test :
-    let r0 : BitsReader := { buf := [0xFF#8] }
-    let (r1, _) := r0.readBits 8
-    let (r2, _) := r1.readBits 1
-    r1.err = false ∧ r2.err = true := by decide
+/-- **overread_reported** for the Go bit reader (after fix f47ea21: `Error()` reports consumed
+    padding bits), for EVERY buffer and EVERY sequence of `ReadBits` widths (each up to 64; the fast
+    refill path, the slow one near the end of the buffer and the 56 padding bits are all in the
+    model): as long as the reads stay inside the buffer `Error()` is nil and the values are exactly
+    the buffer's bits; as soon as the total exceeds the buffer `Error()` is set - reads past the
+    end are reported as an error, never as data. -/
+theorem overread_reported_bitsreader (buf : Bytes) (ns : List Nat) (hns : ∀ n ∈ ns, n ≤ 64) :
+    (ns.sum ≤ 8 * buf.length →
+        (BitsReader.readMany { buf := buf } ns).1.err = false ∧
+        (BitsReader.readMany { buf := buf } ns).2 = BitsReader.windows buf 0 ns) ∧
+    (8 * buf.length < ns.sum → (BitsReader.readMany { buf := buf } ns).1.err = true) := by
+  have h := BitsReader.readMany_spec ns { buf := buf } 0 (BitsReader.rinv_init buf) hns
+  simp only [Nat.zero_add] at h
+  exact ⟨fun hle => ⟨(h.1 hle).1, (h.1 hle).2.1⟩, h.2⟩
+
+/-- **bitsreader_refines_spec**: at every reachable reader state (`RInv r pos`: `pos` bits consumed),
+    `ReadBits(n)` returns what the specification's bit reader returns on the buffer's bit list at
+    `pos`, whenever the read stays inside the buffer. All spec-level round-trip theorems above
+    therefore transfer to the register-level reader. -/
+theorem bitsreader_refines_spec (r : BitsReader) (pos n : Nat) (hI : BitsReader.RInv r pos) (hn : n ≤ 64)
+    (hin : pos + n ≤ 8 * r.buf.length) :
+    readBits n ((bytesBits r.buf).drop pos) = some ((r.readBits n).2, (bytesBits r.buf).drop (pos + n)) ∧
+    BitsReader.RInv (r.readBits n).1 (pos + n) ∧ (r.readBits n).1.err = false :=
+  BitsReader.readBits_refines_spec r pos n hI hn hin
+
+/-- `ReadBit` is `ReadBits(1)`. -/
+theorem readBit_is_readBits_one (r : BitsReader) : r.readBit = r.readBits 1 := BitsReader.readBit_eq_readBits r
+
+/-- **bits_roundtrip** at register level: any sequence of in-contract `WriteBits(v, n)` on a fresh
+    `BitsWriter`, `Close`d, is read back value for value by `ReadBits` calls of the same widths on a
+    fresh `BitsReader` over those bytes, with `Error() == nil`. -/
+theorem bits_roundtrip (ops : List (Word × Nat)) (hops : ∀ p ∈ ops, p.2 ≤ 64 ∧ p.1.toNat < 2 ^ p.2) :
+    let w := ops.foldl (fun w p => w.writeBits p.1 p.2) ({} : BitsWriter)
+    (BitsReader.readMany { buf := w.bytes } (ops.map (·.2))).2 = ops.map (·.1) ∧
+    (BitsReader.readMany { buf := w.bytes } (ops.map (·.2))).1.err = false :=
+  Stef.bits_roundtrip ops hops
+
+-- non-vacuity of the reader invariant: a state reached by real reads (slow path, 3-byte buffer)
+example : BitsReader.RInv (({ buf := [0xAB#8, 0xCD#8, 0xEF#8] } : BitsReader).readBits 5).1 5 :=
+  (BitsReader.readBits_spec _ 0 5 (BitsReader.rinv_init _) (by omega)).1 (by decide) |>.1
 
 -- non-vacuity: a reachable, partially filled register satisfies the invariant, a spilling
 -- write is covered, and a codec state reached after real values satisfies `Ok`.
